@@ -54,14 +54,14 @@ def gen_plan(rng, tier, index):
     for c in range(ncallers):
         reqs = []
         for _ in range(rng.choice([1, 2, 3, 4, 6])):
-            reqs.append([rng.choice([0, 0, 0, 0.001, 0.05, 0.4]), rng.choice(REPLY_MODES)])
+            reqs.append([rng.choice([0, 0, 0, 0.001, 0.05, 0.4, "fault", "fault-", "fault+"]), rng.choice(REPLY_MODES)])
         callers.append(reqs)
     faults = []
     if rng.random() < 0.45:
         t = 0.0
         for _ in range(rng.choice([1, 1, 2, 3])):
             t += rng.choice([0.05, 0.3, 1.0, 2.5, 4.0])
-            faults.append([round(t, 3), rng.choice(["peer_fin", "peer_rst", "peer_fin", "local_cycle"])])
+            faults.append([round(t, 3), rng.choice(["peer_fin", "peer_rst", "peer_rst", "peer_partial_fin", "local_cycle"])])
             t += 1.5
     unsolicited = []
     t = 0.0
@@ -219,7 +219,14 @@ def run(sim, plan):
 
     def caller(c):
         for i, (think, _mode) in enumerate(plan["callers"][c]):
-            if think:
+            if isinstance(think, str):
+                # issue the request right around the next link fault (inside the window in which sends fail)
+                nxt = [t_base_box["t"] + ft for ft, _k in plan["faults"] if t_base_box["t"] + ft > k.now]
+                if nxt:
+                    delta = {"fault": 0.0, "fault-": -0.001, "fault+": 0.0005}[think]
+                    facades.time_facade.sleep(max(0.0, nxt[0] + delta - k.now))
+                    sim.probe("request_at_fault")
+            elif think:
                 facades.time_facade.sleep(think)
             token = _token(c, i)
             rec = {"t0": k.now, "t1": None, "res": "pending", "seq0": k.seq}
@@ -237,13 +244,14 @@ def run(sim, plan):
                 rec["stype"] = getattr(getattr(h, "s_type", None), "value", 0)
                 sim.log("return", c, i, h.system)
 
+    t_base_box = {"t": sim.now}
     for c in range(len(plan["callers"])):
         calls.append(ep.call_async(f"caller{c}", lambda c=c: caller(c)))
         if plan["start_stagger"]:
             sim.sleep(plan["start_stagger"])
 
     # timeline of faults and unsolicited primaries --------------------------------------------------------
-    t_base = sim.now
+    t_base = t_base_box["t"]
     events = [(t, 0, "fault", kind) for t, kind in plan["faults"]] + \
              [(t, 1, "unsol", kind) for t, kind in plan["unsolicited"]]
     events.sort(key=lambda e: (e[0], e[1]))
@@ -280,6 +288,14 @@ def run(sim, plan):
             peer = current["peer"]
             if kind == "peer_fin":
                 peer.close()
+            elif kind == "peer_partial_fin":
+                # the link dies in the middle of a frame: >= 4 bytes of an unsolicited primary, then FIN
+                fr = rc.data(10, 3, False, 0x7F000000 + len(fault_times), rc.enc(rc.ls(rc.b(1), rc.a("partial" * 6))))
+                raw = fr.encode()
+                peer.send_bytes(raw[:4 + (len(fault_times) * 7) % (len(raw) - 5)])
+                sim.probe("partial_frame_at_link_loss")
+                sim.advance(0.05)
+                peer.close()
             elif kind == "peer_rst":
                 peer.reset()
             else:
@@ -303,6 +319,10 @@ def run(sim, plan):
         sim.violation("C06.R6", f"a caller neither got its reply nor a timeout within {bound + 8 * T3:.0f} virtual s; "
                       f"stuck in {tops}", sig="C06.R6|caller-stuck|" + "+".join(tops))
     sim.advance(T3 + 1.5)  # let late replies arrive
+    for c_i, c in enumerate(calls):
+        if c["exc"] is not None:
+            sim.violation("C06.R2", f"caller {c_i}: send_and_waitfor_response raised {c['exc']} instead of returning its "
+                          "reply or None", sig="C06.R2|caller-exception|" + c["exc"].split("(")[0])
 
     # ---------------------------------------------------------------------------------------------- oracles
     # R1: distinct system bytes among simultaneously outstanding requests
